@@ -3,6 +3,7 @@ From Coq Require Import Extraction ExtrOcamlBasic ExtrOcamlString.
 From AT Require Import Num Vec Aff Farkas FM Equiv PTree Cells Abs Reduce Paths PolyGen Cache Elim CPrune EquivThin.
 (* x-acprune begin *) From AT Require Import ArenaCompose ACPrune. (* x-acprune end *)
 (* x-aelim begin *) From AT Require Import AElim AElimRefine. (* x-aelim end *)
+(* x-kprune begin *) From AT Require Import KPrune. (* x-kprune end *)
 Extraction Blacklist List String Int.
 Extraction "model_elim.ml"
   qc_of_float qz qfrac qleb qltb qeqb Qcplus Qcmult Qcopp Qcminus Qcdiv
@@ -18,4 +19,5 @@ Extraction "model_elim.ml"
   compose_prune cprune oracle_by_rows ctree_eqb_shape
   (* x-acprune begin *) acompose_prune acp_list acp_at terminal_keys st_eqb next_key (* x-acprune end *)
   (* x-aelim begin *) aelim arena_eqb acell_eqb arena_okb (* x-aelim end *)
+  (* x-kprune begin *) kabs kcompose_prune kprune ktree_eqb_shape kerase (* x-kprune end *)
   tree_equiv_skip thin_skip.
